@@ -474,10 +474,10 @@ impl SlabRouter {
             return self.put(key, value);
         }
 
-        // Log to WAL first (if configured)
-        if let Some(wal_mutex) = &self.wal {
-            let mut wal = wal_mutex.lock();
-
+        // Log to WAL first (if configured). The log lock is held until the write is applied in
+        // memory, so that concurrent durable writes take effect in the order they were logged.
+        let mut wal_guard = self.wal.as_ref().map(Mutex::lock);
+        if let Some(wal) = wal_guard.as_mut() {
             // Log embedding if present
             if let Some(TensorValue::Vector(embedding)) = value.get("_embedding") {
                 let entity_id = self.index.get_or_create(key);
@@ -496,8 +496,10 @@ impl SlabRouter {
             .map_err(|e| SlabRouterError::WalError(format!("Failed to log put: {e}")))?;
         }
 
-        // Apply to in-memory state
-        self.put(key, value)
+        // Apply to in-memory state (still under the log lock)
+        let result = self.put(key, value);
+        drop(wal_guard);
+        result
     }
 
     /// Delete a value durably, logging to WAL before applying.
@@ -513,10 +515,9 @@ impl SlabRouter {
             return self.delete(key);
         }
 
-        // Log to WAL first (if configured)
-        if let Some(wal_mutex) = &self.wal {
-            let mut wal = wal_mutex.lock();
-
+        // Log to WAL first (if configured); the log lock is held until the delete is applied
+        let mut wal_guard = self.wal.as_ref().map(Mutex::lock);
+        if let Some(wal) = wal_guard.as_mut() {
             // Log embedding delete if key is in entity index
             if let Some(entity_id) = self.index.get(key) {
                 wal.append(&WalEntry::EmbeddingDelete { entity_id })
@@ -538,8 +539,10 @@ impl SlabRouter {
             .map_err(|e| SlabRouterError::WalError(format!("Failed to log delete: {e}")))?;
         }
 
-        // Apply to in-memory state
-        self.delete(key)
+        // Apply to in-memory state (still under the log lock)
+        let result = self.delete(key);
+        drop(wal_guard);
+        result
     }
 
     /// Create a checkpoint by saving a snapshot and marking WAL position.
